@@ -325,6 +325,17 @@ func (st *state) process(f *ssa.Function) {
 				}
 				if g, ok := v.Addr.(*ssa.Global); ok && f.Name() != "init" && !strings.HasPrefix(f.Name(), "init#") {
 					st.findings[st.cfg.Pos(in.Pos())+"global"] = Finding{Fn: f, Pos: st.cfg.Pos(in.Pos()), Kind: "global-store", What: "store to package variable " + g.Name() + " in " + name}
+				} else if _, direct := v.Addr.(*ssa.Global); !direct && f.Name() != "init" && !strings.HasPrefix(f.Name(), "init#") {
+					// a field or element of a package-level variable of the module
+					if g := globalBase(v.Addr); g != nil && inModuleGlobal(st, g) {
+						root := f
+						for root.Parent() != nil {
+							root = root.Parent()
+						}
+						if root.Name() != "init" && !strings.HasPrefix(root.Name(), "init#") {
+							st.findings[st.cfg.Pos(in.Pos())+"global"] = Finding{Fn: f, Pos: st.cfg.Pos(in.Pos()), Kind: "global-store", What: "store to a part of the package variable " + g.Name() + " in " + name}
+						}
+					}
 				}
 			case *ssa.MapUpdate:
 				if st.isT(v.Map) {
